@@ -1,5 +1,10 @@
 import AasVerif.Lemmas.JsonSchemaLookup
 import AasVerif.Lemmas.JsonSchemaTighten
+<<<<<<< HEAD
+import AasVerif.Lemmas.JsonSchemaSearchB
+=======
+import AasVerif.Lemmas.JsonSchemaDispatch
+>>>>>>> 3b801aa4d6d8f2c3db6a941074c9d9dbc6e76170
 /-!
 # C12 — JSON Schema enforces every inferred constraint
 
@@ -10,9 +15,11 @@ mistyped value, a wrong or missing `modelType`, a missing required property is N
 
 Scope proved here: the value level for every type annotation (own class, ancestors and constrained
 primitives are already merged into the constraints the annotation carries — that merge is C15's
-subject), and the object level for the OWN properties of a concrete class without concrete
-descendants.  Planned, not proved: the object level through the `allOf`/`$ref` chain (inherited
-properties, tightening steps, classes with concrete descendants); see `design.d/C12.md`.
+subject); the object level for concrete classes without concrete descendants and their direct
+parents (first sections); and, in the last section, WHOLE DOCUMENTS of every concrete class of a
+meta-model with a consistent hierarchy (`hierOK`, decidable, evaluated by the driver on every input):
+ancestors at any distance, several parents constraining one property, classes with concrete
+descendants (`X = allOf[X_abstract, const]`) and `_choice` definitions — see `design.d/C12.md`.
 The two exclusions of the statement show up as follows: item-level constraints of an inherited list
 are simply not part of `defineProp` for inherited properties (only the top node is translated);
 byte-array bounds are stated on the base64 text (`base64Len`).
@@ -375,5 +382,206 @@ example : (match concreteDefinition leafC, inheritableDefinition rootC with
       -- the child's tightening (`len ≥ 2`, merged with the parent's `len ≤ 3`)
       validates twoDefs 12 s (.obj [(ascii "name", .str (ascii "a")), (modelTypeKey, .str (ascii "Leaf"))]) == some false
     | _, _ => false) = true := by decide
+
+<<<<<<< HEAD
+/-! ## Patterns, in the denotational semantics -/
+
+/-- **`pattern_miss_rejected`, in the semantics.** A string in whose UTF-16 units one of the inferred
+patterns (parsed after the rewriting for UTF-16 engines) has NO match — no substring `b` of
+`Fix16.utf16 t = a ++ b ++ c` with `Retree.MUnion re a b c` — is rejected. -/
+theorem pattern_miss_rejected_semantic (defs : Defs) (cs : Cons) (ps : List Text) (p : Text) (re : Regex)
+    (s : Schema) (t : Text) (hp : cs.pats = some ps) (hmem : p ∈ ps) (hfix : fixPattern p = .ok re)
+    (hmiss : ¬ Search re (Fix16.utf16 t))
+    (h : defineType (.prim .str (some cs)) = .ok s) : ¬ Valid defs s (.str t) :=
+  pattern_miss_rejected defs cs ps p re s t hp hmem hfix ((searchB_ne_yes_iff re _).mpr hmiss) h
+
+/-- … and the validator says so DEFINITELY: the `pattern` keyword answers `some false` (not "out of
+fuel") on such a string. -/
+theorem pattern_miss_definite (defs : Defs) (r : Schema → Json → Option Bool) (re : Regex) (t : Text)
+    (hmiss : ¬ Search re (Fix16.utf16 t)) : validKw defs r (.pattern re) (.str t) = some false := by
+  simp only [validKw, (searchB_no_iff re _).mpr hmiss, R.toO]
+
+/-- non-vacuity: `^a$` has no match in `ab` -/
+example : ¬ Search (.mk [.mk [.mk (.sym .start) none, .mk (.char ⟨97, false⟩) none, .mk (.sym .stop) none]])
+    [97, 98] := by
+  rw [← searchB_no_iff]; decide
+=======
+/-! ## Whole documents: ancestor paths of any length, several parents, classes with descendants
+
+`DocOK mm defs c j` (`Lemmas/JsonSchemaDocument`): `j` is an object, carries `modelType = c` if the class
+has a model type, and for `c` and EACH ancestor `b` of `c` (`ancestorsOf mm c`: every path of
+`inheritances`) the own required members of `b` are present and every present member value meets the
+annotation (where `b` declares the property) resp. the complete merged constraint of the top node
+(where `b` inherits it).  `hierOK mm` is the decidable consistency of the input (`Model/JsonSchemaHier`). -/
+
+/-- **tightening steps are sound for ANY number of parents**: what EVERY constraining direct parent
+imposes on the top node together with the steps the class emits (`tightenAll`: the steps common to all
+parents, `_common_tightening_steps`) implies the class's complete constraints — also in a diamond. -/
+theorem tightening_steps_sound_all_parents {full T : Cons} {parents : List (Option Cons)}
+    (h : tightenAll full parents = .ok T) (sh : Shape) (j : Json)
+    (hpar : ∀ pc, some pc ∈ parents → TransSpec sh pc j) (hT : TransSpec sh T j) : TransSpec sh full j :=
+  tightenAll_sound h sh j hpar hT
+
+/-- **`document_enforced`.**  Whatever `{"$ref": "#/definitions/<c>"}` accepts is a well-formed
+document of the concrete class `c`: ANY violation — of a constraint inferred from the class itself or
+from an ancestor at any distance, of `modelType`, of a required member of any ancestor, of a value's
+type — makes the generated schema reject. -/
+theorem document_enforced (mm : MM) (defs : Defs) (h : generate mm = .ok defs) (hwf : hierOK mm = true)
+    {c : Cls} (hc : OurType.cls c ∈ mm.types) (hconc : c.abstract = false) (j : Json)
+    (hbad : ¬ DocOK mm defs c j) : ¬ Valid defs (refTo c.mt) j :=
+  fun hv => hbad ((document_iff mm defs h hwf hc hconc j).mp hv)
+
+/-- a value that is not an object is rejected -/
+theorem generated_schema_rejects_non_object (mm : MM) (defs : Defs) (h : generate mm = .ok defs)
+    (hwf : hierOK mm = true) {c : Cls} (hc : OurType.cls c ∈ mm.types) (hconc : c.abstract = false)
+    (j : Json) (hj : ∀ kvs, j ≠ .obj kvs) : ¬ Valid defs (refTo c.mt) j := by
+  refine document_enforced mm defs h hwf hc hconc j ?_
+  rintro ⟨kvs, hk, _⟩
+  exact hj kvs hk
+
+/-- **a property declared in an ancestor at ANY distance** (or in the class itself): a member value
+breaking the annotation where the property is declared (shape or inferred constraint, items
+included) does not validate against the generated schema of the descendant — leaf class or class with
+concrete descendants alike -/
+theorem generated_schema_enforces_ancestor (mm : MM) (defs : Defs) (h : generate mm = .ok defs)
+    (hwf : hierOK mm = true) {c b : Cls} (hc : OurType.cls c ∈ mm.types) (hconc : c.abstract = false)
+    (hb : b ∈ c :: ancestorsOf mm c) {p : Prp} (hp : p ∈ b.props) (hown : p.own = true)
+    {kvs : List (Text × Json)} {v : Json} (hl : lookup p.name kvs = some v) (hbad : ¬ Sat defs p.ty v) :
+    ¬ Valid defs (refTo c.mt) (.obj kvs) := by
+  intro hv
+  obtain ⟨kvs', hj, _, hall⟩ := (document_iff mm defs h hwf hc hconc _).mp hv
+  cases hj
+  have := (hall b hb).2 p hp v hl
+  unfold MemberOK at this
+  rw [if_pos hown] at this
+  exact hbad this
+
+/-- **the merged constraint of a property, in every class along the chain**: `cs` is the complete
+constraint inferred for the top node of property `p` in class `b` — the document's class or any of its
+ancestors, `p` declared there or inherited through any number of parents; a member value breaking it
+does not validate against the generated schema -/
+theorem generated_schema_enforces_merged (mm : MM) (defs : Defs) (h : generate mm = .ok defs)
+    (hwf : hierOK mm = true) {c b : Cls} (hc : OurType.cls c ∈ mm.types) (hconc : c.abstract = false)
+    (hb : b ∈ c :: ancestorsOf mm c) {p : Prp} (hp : p ∈ b.props)
+    {kvs : List (Text × Json)} {v : Json} (hl : lookup p.name kvs = some v)
+    {cs : Cons} (hcs : p.ty.cons = some cs) (hbad : ¬ TransSpec p.ty.shape cs v) :
+    ¬ Valid defs (refTo c.mt) (.obj kvs) := by
+  intro hv
+  obtain ⟨kvs', hj, _, hall⟩ := (document_iff mm defs h hwf hc hconc _).mp hv
+  cases hj
+  exact hbad (memberOK_top defs ((hall b hb).2 p hp v hl) cs hcs)
+
+/-- **a required member of any ancestor** (or of the class itself) that is missing is rejected -/
+theorem generated_schema_requires_ancestor (mm : MM) (defs : Defs) (h : generate mm = .ok defs)
+    (hwf : hierOK mm = true) {c b : Cls} (hc : OurType.cls c ∈ mm.types) (hconc : c.abstract = false)
+    (hb : b ∈ c :: ancestorsOf mm c) {p : Prp} (hp : p ∈ b.props) (hown : p.own = true)
+    (hreq : p.optional = false) {kvs : List (Text × Json)} (hmiss : hasKey p.name kvs = false) :
+    ¬ Valid defs (refTo c.mt) (.obj kvs) := by
+  intro hv
+  obtain ⟨kvs', hj, _, hall⟩ := (document_iff mm defs h hwf hc hconc _).mp hv
+  cases hj
+  have := (hall b hb).1 p hp hown hreq
+  rw [hmiss] at this
+  cases this
+
+/-- **`modelType` wrong or missing** — for every concrete class that carries the model type, with or
+without concrete descendants, wherever up the chain `modelType` is declared required -/
+theorem generated_schema_modelType_enforced (mm : MM) (defs : Defs) (h : generate mm = .ok defs)
+    (hwf : hierOK mm = true) {c : Cls} (hc : OurType.cls c ∈ mm.types) (hconc : c.abstract = false)
+    (hw : c.withModelType = true) {kvs : List (Text × Json)}
+    (hbad : lookup modelTypeKey kvs ≠ some (.str c.mt)) : ¬ Valid defs (refTo c.mt) (.obj kvs) := by
+  intro hv
+  obtain ⟨kvs', hj, hmt, _⟩ := (document_iff mm defs h hwf hc hconc _).mp hv
+  cases hj
+  exact hbad (hmt hw)
+
+/-- **dispatch**: a value that is not a well-formed document of one of the alternatives is rejected by
+the `_choice` definition (a wrong or unknown `modelType`, or any violation inside the document) -/
+theorem choice_enforced (mm : MM) (defs : Defs) (h : generate mm = .ok defs) (hwf : hierOK mm = true)
+    {c : Cls} (hc : OurType.cls c ∈ mm.types) (hdesc : c.cdesc ≠ [])
+    (hch : choiceOK mm.types c = true) (hhas : hasChoice (classesInProperties mm) c = true) (j : Json)
+    (hbad : ∀ d, OurType.cls d ∈ mm.types → d.abstract = false → d.mt ∈ choiceAlts c → ¬ DocOK mm defs d j) :
+    ¬ Valid defs (refTo (sfx c.mt "_choice")) j := by
+  intro hv
+  obtain ⟨d, hd, hdc, _, hY, hdoc⟩ := (choice_iff mm defs h hwf hc hdesc hch hhas j).mp hv
+  exact hbad d hd hdc hY hdoc
+
+/-! ### Non-vacuity: the three-level chain of `Props.C11.chainMM` re-stated here
+
+`Root` (abstract, `name: str`, `len ≤ 5`) ← `Mid` (concrete WITH a concrete descendant, tightens to
+`1 ≤ len`) ← `Leaf` (tightens to `2 ≤ len`); `Holder.roots : List[Root]` with `len ≥ 1`. -/
+
+def rootK : Cls := ⟨ascii "Root", true, true, [],
+  [⟨ascii "kind", true, true, .enum (ascii "Kind"), []⟩,
+   ⟨ascii "name", false, true, .prim .str (some ⟨some ⟨none, some 5⟩, none⟩), []⟩], [ascii "Mid", ascii "Leaf"]⟩
+def midK : Cls := ⟨ascii "Mid", false, true, [⟨ascii "Root", false, true⟩],
+  [⟨ascii "kind", true, false, .enum (ascii "Kind"), [none]⟩,
+   ⟨ascii "name", false, false, .prim .str (some ⟨some ⟨some 1, some 5⟩, none⟩), [some ⟨some ⟨none, some 5⟩, none⟩]⟩],
+  [ascii "Leaf"]⟩
+def leafK : Cls := ⟨ascii "Leaf", false, true, [⟨ascii "Mid", true, true⟩],
+  [⟨ascii "kind", true, false, .enum (ascii "Kind"), [none]⟩,
+   ⟨ascii "name", false, false, .prim .str (some ⟨some ⟨some 2, some 5⟩, none⟩), [some ⟨some ⟨some 1, some 5⟩, none⟩]⟩,
+   ⟨ascii "blob", true, true, .prim .bytes (some ⟨some ⟨none, some 4⟩, none⟩), []⟩], []⟩
+def holderK : Cls := ⟨ascii "Holder", false, false, [],
+  [⟨ascii "roots", false, true, .list (.cls (ascii "Root") true) (some ⟨some ⟨some 1, none⟩, none⟩), []⟩], []⟩
+def chainMM : MM := ⟨[.enum (ascii "Kind") [ascii "b", ascii "a"], .cls rootK, .cls midK, .cls leafK, .cls holderK]⟩
+def chainDefs : Defs := match generate chainMM with | .ok d => d | _ => []
+
+example : hierOK chainMM = true ∧ choicesOK chainMM = true ∧
+    (ancestorsOf chainMM leafK).map (·.mt) = [ascii "Mid", ascii "Root"] := by
+  refine ⟨by decide, by decide, by decide⟩
+
+/-- single violations on documents of `Leaf` (two steps below the declaring class), of `Mid` (a class with
+concrete descendants) and inside a list dispatched through `Root_choice`: each is rejected definitely -/
+example :
+    -- the bound declared two levels up (`Root`: len ≤ 5)
+    validates chainDefs 20 (refTo (ascii "Leaf")) (.obj [(ascii "name", .str (ascii "abcdef")),
+      (modelTypeKey, .str (ascii "Leaf"))]) = some false ∧
+    -- the tightening of the intermediate class / of the leaf itself
+    validates chainDefs 20 (refTo (ascii "Leaf")) (.obj [(ascii "name", .str []),
+      (modelTypeKey, .str (ascii "Leaf"))]) = some false ∧
+    validates chainDefs 20 (refTo (ascii "Leaf")) (.obj [(ascii "name", .str (ascii "a")),
+      (modelTypeKey, .str (ascii "Leaf"))]) = some false ∧
+    -- a required member declared two levels up, `modelType` required two levels up
+    validates chainDefs 20 (refTo (ascii "Leaf")) (.obj [(modelTypeKey, .str (ascii "Leaf"))]) = some false ∧
+    validates chainDefs 20 (refTo (ascii "Leaf")) (.obj [(ascii "name", .str (ascii "abc"))]) = some false ∧
+    -- the class with concrete descendants: wrong / missing `modelType`, the parent's bound
+    validates chainDefs 20 (refTo (ascii "Mid")) (.obj [(ascii "name", .str (ascii "abc")),
+      (modelTypeKey, .str (ascii "Leaf"))]) = some false ∧
+    validates chainDefs 20 (refTo (ascii "Mid")) (.obj [(ascii "name", .str (ascii "abc"))]) = some false ∧
+    validates chainDefs 20 (refTo (ascii "Mid")) (.obj [(ascii "name", .str (ascii "abcdef")),
+      (modelTypeKey, .str (ascii "Mid"))]) = some false ∧
+    -- dispatch: an item that is a fine `Mid` but claims to be a `Leaf` (len ≥ 2)
+    validates chainDefs 20 (refTo (ascii "Holder")) (.obj [(ascii "roots", .arr [
+      .obj [(ascii "name", .str (ascii "a")), (modelTypeKey, .str (ascii "Leaf"))]])]) = some false := by
+  refine ⟨by decide, by decide, by decide, by decide, by decide, by decide, by decide, by decide, by decide⟩
+
+/-! ### Non-vacuity: a diamond — two parents constraining the same inherited property
+
+`A` (abstract, `x: str`, `len ≤ 9`) ← `B` (abstract, `1 ≤ len`), `C` (abstract, `len ≤ 5`) ← `D(B, C)` concrete:
+the complete constraint of `D.x` is `1 ≤ len ≤ 5`, each half enforced through another parent. -/
+
+def diaA : Cls := ⟨ascii "A", true, true, [],
+  [⟨ascii "x", false, true, .prim .str (some ⟨some ⟨none, some 9⟩, none⟩), []⟩], [ascii "D"]⟩
+def diaB : Cls := ⟨ascii "B", true, true, [⟨ascii "A", false, true⟩],
+  [⟨ascii "x", false, false, .prim .str (some ⟨some ⟨some 1, some 9⟩, none⟩), [some ⟨some ⟨none, some 9⟩, none⟩]⟩], [ascii "D"]⟩
+def diaC : Cls := ⟨ascii "C", true, true, [⟨ascii "A", false, true⟩],
+  [⟨ascii "x", false, false, .prim .str (some ⟨some ⟨none, some 5⟩, none⟩), [some ⟨some ⟨none, some 9⟩, none⟩]⟩], [ascii "D"]⟩
+def diaD : Cls := ⟨ascii "D", false, true, [⟨ascii "B", false, true⟩, ⟨ascii "C", false, true⟩],
+  [⟨ascii "x", false, false, .prim .str (some ⟨some ⟨some 1, some 5⟩, none⟩),
+    [some ⟨some ⟨some 1, some 9⟩, none⟩, some ⟨some ⟨none, some 5⟩, none⟩]⟩], []⟩
+def diamondMM : MM := ⟨[.cls diaA, .cls diaB, .cls diaC, .cls diaD]⟩
+def diamondDefs : Defs := match generate diamondMM with | .ok d => d | _ => []
+
+example : hierOK diamondMM = true ∧
+    (ancestorsOf diamondMM diaD).map (·.mt) = [ascii "B", ascii "A", ascii "C", ascii "A"] ∧
+    validates diamondDefs 20 (refTo (ascii "D")) (.obj [(ascii "x", .str (ascii "abc")),
+      (modelTypeKey, .str (ascii "D"))]) = some true ∧
+    validates diamondDefs 20 (refTo (ascii "D")) (.obj [(ascii "x", .str []),
+      (modelTypeKey, .str (ascii "D"))]) = some false ∧
+    validates diamondDefs 20 (refTo (ascii "D")) (.obj [(ascii "x", .str (ascii "abcdef")),
+      (modelTypeKey, .str (ascii "D"))]) = some false := by
+  refine ⟨by decide, by decide, by decide, by decide, by decide⟩
+>>>>>>> 3b801aa4d6d8f2c3db6a941074c9d9dbc6e76170
 
 end AasVerif.Props.C12
